@@ -14,7 +14,16 @@ def scenarios(ctx):
     cb = gens.with_callback_failures(base + ex[::3], ctx.seed, 1 if q else 3)
     # arbitrary call histories: the same arrivals fed call by call, return codes ignored (no hand-over protocol)
     raw = [Scn(s.name + ".raw", s.arr, dict(s.cfg, mode="raw", wf=0, cls="raw"), s.beh, (), s.close) for s in (base[::2] + cb[::4])]
-    return base + ex + cb + raw
+    # an unterminated line / header / chunk-size line pumped past the hard field limit (the direction fails while buffering at the end of a
+    # call), then more calls for the same direction incl. a complete message: the failure must stick
+    import c10
+    tail = {0: b"\r\nGET /after HTTP/1.1\r\nHost: h\r\n\r\n", 1: b"\r\nHTTP/1.1 200 OK\r\nContent-Length: 0\r\n\r\n"}
+    pumps = []
+    for s in c10.pumps(ctx)[:: (7 if q else 2)]:
+        d = s.cfg["pumpdir"]
+        dd = "<" if d == 1 else ">"
+        pumps.append(Scn(s.name + ".then", s.arr + [(dd, tail[d]), (dd, tail[d][2:])], dict(s.cfg, cls="pump-then", wf=0), (), (), s.close))
+    return base + ex + cb + raw + pumps
 
 
 def run(ctx):
